@@ -159,6 +159,9 @@ def gen_plan(rng, tier, idx, opts):
             # the stream-variation drivers of the library run their own history of solve / clear / set_precoders /
             # set_receive_filters on the SAME solver object
             ops.append({"op": "stream_search", "how": rng.choice(["greedy", "greedy", "brute"]), "P": gen_P(rng, K, extreme)})
+        elif r < 0.835:
+            # the channel object gets a new realisation of the SAME dimensions, then the solver solves again
+            ops.append({"op": "rerandomize", "seed": s(), "P": gen_P(rng, K, extreme), "twin_first": rng.random() < 0.6})
         elif r < 0.845:
             # ANOTHER solver object is built on the same channel object and solved in between
             ops.append({"op": "other_solver", "kind": rng.choice(["altmin", "minleak", "maxsinr", "mmse"]), "P": gen_P(rng, K, extreme), "seed": s()})
@@ -367,9 +370,43 @@ def execute(plan):
                         bump(res["faults"], "rejected-setter")
                     log.add(o, op["P"])
                     # falls through to check_relations: everything must still hold for the power set last
+                elif o == "rerandomize":
+                    if plan["init"] == "fix":
+                        continue
+                    ch.set_channel_seed(op["seed"])
+                    ch.randomize(np.array(Nr), np.array(Nt), K)
+                    tw = m.get("twin_solver")
+                    if tw is not None and op.get("twin_first"):
+                        # a second solver of the same class lives on the same channel object and happens to solve first
+                        try:
+                            tw.solve(np.array(Ns), None)
+                        except Exception:   # noqa: BLE001
+                            pass
+                        bump(res["probes"], "twin_solver_solved_first_after_a_channel_change")
+                    solver.solve(np.array(Ns), py_P(op["P"]))
+                    m["handed_P"] = None
+                    set_model_P(op["P"])
+                    m["F_def"] = m["W_def"] = True
+                    m["aligned"] = True
+                    m["F_from_solve"] = True
+                    m["cost_ok"] = False
+                    cur["Ns"] = [int(x) for x in solver.Ns]
+                    m["last_setter"] = "solve"
+                    solves += 1
                 elif o == "other_solver":
                     if op["kind"] in ("mmse", "maxsinr") and cur["noise"] is None:
                         continue
+                    if m.get("twin_solver") is None and op["seed"] % 2 == 0:
+                        # a twin: same class as the solver under test, same channel object, kept alive and solved now
+                        tw = SOLVERS[kind](ch)
+                        seed_all_rs(tw, op["seed"] % (1 << 31))
+                        if kind != "closed":
+                            tw.max_iterations = 2
+                        try:
+                            tw.solve(np.array(Ns), None)
+                            m["twin_solver"] = tw
+                        except Exception:   # noqa: BLE001
+                            pass
                     s2 = SOLVERS[op["kind"]](ch)
                     seed_all_rs(s2, op["seed"] % (1 << 31))
                     s2.max_iterations = 2
